@@ -1,6 +1,7 @@
 #[cfg(feature = "std")]
 pub mod blockwise;
 pub mod engine;
+pub mod fuzzdec;
 pub mod gen;
 pub mod pkt;
 pub mod props;
